@@ -28,6 +28,7 @@ type Engine struct {
 	Preds     map[string]*PredDef
 	SpecFns   map[string]*SpecFn
 	Axioms    []string
+	SpecDefs  []string
 	ContractFiles []string
 
 	globalAddr map[*ssa.Global]int
